@@ -27,7 +27,7 @@ PROBES = {"C19": ["crash_between_train_and_test_prediction", "crash_at_fit",
                   "resume_with_partial_unit", "resume_all_complete",
                   "overwrite_run", "rerun_same_process", "presplit_cv",
                   "clock_backwards_seen", "kill_not_exception",
-                  "options_changed_between_runs", "ram_store", "features_reordered",
+                  "options_changed_between_runs", "ram_store", "features_reordered", "benchmark_extended_later",
                   "presplit_labels_interleaved"]}
 FAULT_KINDS = {"C19": ["peer_raises@k", "crash_restart", "rerun_same_process",
                        "clock_jump_fwd", "clock_jump_back"]}
@@ -98,6 +98,14 @@ def generate(prop, rng, tier):
     runs = []
     for i in range(n_runs + 1):
         runs.append(_gen_run(rng, store, first=(i == 0)))
+    if store == "hdd" and len(strategies) >= 2 and rng.random() < 0.35:
+        # the benchmark is extended later: early runs know only some of the strategies
+        first_full = rng.randint(1, len(runs) - 1)
+        for j, r_ in enumerate(runs):
+            if j < first_full:
+                r_["strategies"] = strategies[:-1]
+                r_["restart"] = True
+        runs[first_full]["restart"] = True
     scen = {
         "kind": kind, "store": store, "datasets": datasets,
         "data_seed": rng.randint(0, 10 ** 6), "strategies": strategies,
@@ -280,12 +288,12 @@ class World:
             return peers.SpyClassifier(tag=name)
         return peers.SpyRegressor(tag=name)
 
-    def make_strategies(self):
+    def make_strategies(self, names=None):
         from sktime.benchmarking.strategies import TSCStrategy, TSRStrategy
         S = TSCStrategy if self.scen["kind"] == "tsc" else TSRStrategy
-        return [S(self.make_estimator(n), name=n) for n in self.scen["strategies"]]
+        return [S(self.make_estimator(n), name=n) for n in (names or self.scen["strategies"])]
 
-    def make_process(self, keep_ram=None):
+    def make_process(self, keep_ram=None, names=None):
         """Fresh Python objects = a restarted process; only the directory (and
         nothing of the RAM store) survives."""
         from sktime.benchmarking.orchestration import Orchestrator
@@ -295,7 +303,7 @@ class World:
         else:
             results = RAMResults()
         orch = Orchestrator(tasks=self.make_tasks(), datasets=self.make_datasets(),
-                            strategies=self.make_strategies(), cv=self.make_cv(),
+                            strategies=self.make_strategies(names), cv=self.make_cv(),
                             results=results)
         return orch
 
@@ -385,19 +393,19 @@ class Model:
                         }
         return truth
 
-    def units(self):
+    def units(self, names=None):
         for ds in self.scen["datasets"]:
-            for s in self.scen["strategies"]:
+            for s in (names or self.scen["strategies"]):
                 for f in range(len(self.fold_map[ds["name"]])):
                     yield s, ds["name"], f
 
-    def plan(self, opts):
+    def plan(self, opts, names=None):
         """List of (unit, [steps]) the run must perform, from the model store.
         A step is ('fit'|'predict_train'|'predict_test'|'save_fitted')."""
         ow_p, on_train = opts["overwrite_predictions"], opts["predict_on_train"]
         save, ow_f = opts["save_fitted_strategies"], opts["overwrite_fitted_strategies"]
         plan = []
-        for (s, d, f) in self.units():
+        for (s, d, f) in self.units(names):
             if self.hdd:
                 has_test = (s, d, f, "test") in self.records
                 has_train = (s, d, f, "train") in self.records
@@ -503,6 +511,7 @@ class History:
         self.root = shared.new_root()
         self.world = World(scen, self.root, shared)
         self.registry_checked = False
+        self.live_names = None
         self.verified = {}  # relpath -> content hash already checked against the model
         self.model = Model(self.world)
         self.orch = None
@@ -519,11 +528,15 @@ class History:
         """One fit_predict call.  crash_at: absolute k or None."""
         scen, model, res = self.scen, self.model, self.res
         opts = run["opts"]
-        fresh = run["restart"] or self.orch is None
+        names = run.get("strategies")
+        fresh = run["restart"] or self.orch is None or names != self.live_names
         if fresh:
             if self.orch is not None:
                 res.fault("crash_restart")
-            self.orch = self.world.make_process()
+            self.orch = self.world.make_process(names=names)
+            self.live_names = names
+            if names:
+                res.probe("benchmark_extended_later")
         else:
             res.fault("rerun_same_process")
             res.probe("rerun_same_process")
@@ -533,7 +546,7 @@ class History:
         before = _scan_store(self.world.results_dir) if model.hdd else {}
         complete_before = {k for k in model.records}
         fitted_before = set(model.fitted)
-        plan = model.plan(opts)
+        plan = model.plan(opts, names)
         exp_calls = model.expected_calls(plan)
         n_total = len(exp_calls)
         if crash_at is not None and (crash_at < 1 or crash_at > n_total):
@@ -720,11 +733,12 @@ class History:
         exp_pairs = {}
         for (s, d, f, part) in model.records:
             exp_pairs.setdefault((f, part), set()).add((s, d))
+        all_s = {k[0] for k in model.records}
+        all_d = {k[1] for k in model.records}
         for (f, part), pairs in sorted(exp_pairs.items()):
-            # registry is a cross product: only comparable when every pair has the record
-            strategies = {p[0] for p in pairs}
-            dsets = {p[1] for p in pairs}
-            if len(pairs) != len(strategies) * len(dsets):
+            # the registry is a cross product of every strategy and dataset with any record:
+            # a (fold, part) is only readable when all of those pairs have it
+            if len(pairs) != len(all_s) * len(all_d):
                 continue
             try:
                 with peers.paused():
@@ -818,9 +832,12 @@ def _crash_point(run, plan_len):
 
 def _resume_opts(run):
     """The resume of a failed run: same options, overwriting disabled."""
-    return {"opts": dict(run["opts"], overwrite_predictions=False,
-                         overwrite_fitted_strategies=False),
-            "restart": True, "exc": "fault"}
+    out = {"opts": dict(run["opts"], overwrite_predictions=False,
+                        overwrite_fitted_strategies=False),
+           "restart": True, "exc": "fault"}
+    if run.get("strategies"):
+        out["strategies"] = run["strategies"]
+    return out
 
 
 def _finish(h, res, digest):
@@ -863,7 +880,7 @@ def execute(prop, scen):
         # ---- the generated history (crash points at sampled fractions)
         h = History(scen, res, "history", shared)
         for i, run in enumerate(runs):
-            plan_len = len(h.model.expected_calls(h.model.plan(run["opts"])))
+            plan_len = len(h.model.expected_calls(h.model.plan(run["opts"], run.get("strategies"))))
             k = _crash_point(run, plan_len)
             out = h.run(i, run, k)
             if out == "error":
@@ -881,7 +898,7 @@ def execute(prop, scen):
         if scen["enumerate_first"] and scen["store"] == "hdd" and not res.violations:
             run0 = dict(runs[0], crash_frac=None, crash_at=None, restart=True)
             ref = History(scen, RunResult(), "reference", shared)
-            n_calls = len(ref.model.expected_calls(ref.model.plan(run0["opts"])))
+            n_calls = len(ref.model.expected_calls(ref.model.plan(run0["opts"], run0.get("strategies"))))
             ref.run(0, run0, None)
             ref_store = ref.final_store()
             ks = scen.get("crash_points")
@@ -962,6 +979,8 @@ def shrink_candidates(prop, scen):
         yield dict(s, features=None)
     if s["clock"]["jump_every"]:
         yield dict(s, clock=dict(s["clock"], jump_every=0))
+    if any(r.get("strategies") for r in s["runs"]):
+        yield dict(s, runs=[{k: v for k, v in r.items() if k != "strategies"} for r in s["runs"]])
     for i, r in enumerate(s["runs"]):
         for key in ("overwrite_predictions", "predict_on_train", "save_fitted_strategies",
                     "overwrite_fitted_strategies"):
